@@ -71,6 +71,14 @@ func (e *streamState) SwapWithoutLock(state streamStatus) (old streamStatus) {
 	return
 }
 
+// wake makes the waiters look at their contexts again. The broadcast is made with the lock held: a waiter tests its
+// context and then calls Wait under that lock, so a broadcast made without it could fall between the two and be lost.
+func (e *streamState) wake() {
+	e.Lock()
+	e.cond.Broadcast()
+	e.Unlock()
+}
+
 func (e *streamState) Is(state streamStatus) bool {
 	e.Lock()
 	defer e.Unlock()
